@@ -229,10 +229,11 @@ theorem winv_of_frame {s s' : St} (h : WInv s) (hq : s'.qos = s.qos) (hi : s'.in
 
 theorem step_winv (s : St) (e : Ev) (h : WInv s) : WInv (step s e).1 := by
   cases e with
-  | write k v ts now => exact methodWrite_winv s k v ts now h
+  | write k v ts now =>
+    exact methodWrite_winv _ k v ts now (winv_of_frame h (removeStale_frame s now).1 (removeStale_frame s now).2.1)
   | acknack rid base set count now =>
     simp only [step, onAcknack]
-    exact processPending_winv _ now (winv_of_frame h rfl rfl)
+    exact processPending_winv _ now (winv_of_frame h (removeStale_frame s now).1 (removeStale_frame s now).2.1)
   | tick now =>
     simp only [step, tick, tickRest]
     have hr := removeStale_frame s now
